@@ -91,14 +91,18 @@ func (m *StrMap[V]) LoadFromSlice(kk []string, vv []V) error {
 	if len(kk) != len(vv) {
 		return errors.New("kv len not match")
 	}
+	sz := 0
+	for _, k := range kk {
+		if len(k) > math.MaxUint32 {
+			// it doesn't make sense ...
+			return errors.New("key too large")
+		}
+		sz += len(k)
+	}
 	m.data = m.data[:0]
 	m.items = m.items[:0]
 	m.hashtable = m.hashtable[:0]
 
-	sz := 0
-	for _, k := range kk {
-		sz += len(k)
-	}
 	if cap(m.data) < sz || viewsOf(m.data, kk) {
 		// a key may be a view of the old key buffer (e.g. returned by Item):
 		// the buffer must not be overwritten while such keys are still to be copied
@@ -109,10 +113,6 @@ func (m *StrMap[V]) LoadFromSlice(kk []string, vv []V) error {
 	}
 
 	for i, k := range kk {
-		if len(k) > math.MaxUint32 {
-			// it doesn't make sense ...
-			return errors.New("key too large")
-		}
 		v := vv[i]
 		m.items = append(m.items,
 			mapItem[V]{
@@ -284,6 +284,11 @@ func NewStr2StrFromMap(m map[string]string) *Str2Str {
 func (sm *Str2Str) LoadFromSlice(kk, vv []string) error {
 	if len(kk) != len(vv) {
 		return errors.New("kv len not match")
+	}
+	for _, k := range kk {
+		if len(k) > math.MaxUint32 {
+			return errors.New("key too large")
+		}
 	}
 	if sm.strStore == nil || sm.strStore.Views(kk) {
 		// a key may be a view of the value store (returned by Get):
